@@ -6,6 +6,7 @@ CONSTANTS
   MaxGets = 6
   InjLen = 3
   Wide = {}
+  ChainSeq <- NoChain
   Emit = TRUE
 INVARIANTS InjectConsistent StackEmptyWhenQuiet Precedence NoRecursion OnceBuilt LazyFactories
 CHECK_DEADLOCK FALSE
